@@ -9,6 +9,11 @@ type nat =
 | O
 | S of nat
 
+(** val fst : ('a1 * 'a2) -> 'a1 **)
+
+let fst = function
+| (x, _) -> x
+
 (** val snd : ('a1 * 'a2) -> 'a2 **)
 
 let snd = function
@@ -27,12 +32,33 @@ let rec app l m =
   | [] -> m
   | a :: l1 -> a :: (app l1 m)
 
+type comparison =
+| Eq
+| Lt
+| Gt
+
+(** val add : nat -> nat -> nat **)
+
+let rec add n0 m =
+  match n0 with
+  | O -> m
+  | S p -> S (add p m)
+
+type positive =
+| XI of positive
+| XO of positive
+| XH
+
+type n =
+| N0
+| Npos of positive
+
 module Nat =
  struct
   (** val leb : nat -> nat -> bool **)
 
-  let rec leb n m =
-    match n with
+  let rec leb n0 m =
+    match n0 with
     | O -> true
     | S n' -> (match m with
                | O -> false
@@ -40,9 +66,305 @@ module Nat =
 
   (** val ltb : nat -> nat -> bool **)
 
-  let ltb n m =
-    leb (S n) m
+  let ltb n0 m =
+    leb (S n0) m
  end
+
+module Pos =
+ struct
+  type mask =
+  | IsNul
+  | IsPos of positive
+  | IsNeg
+ end
+
+module Coq_Pos =
+ struct
+  (** val succ : positive -> positive **)
+
+  let rec succ = function
+  | XI p -> XO (succ p)
+  | XO p -> XI p
+  | XH -> XO XH
+
+  (** val pred_double : positive -> positive **)
+
+  let rec pred_double = function
+  | XI p -> XI (XO p)
+  | XO p -> XI (pred_double p)
+  | XH -> XH
+
+  type mask = Pos.mask =
+  | IsNul
+  | IsPos of positive
+  | IsNeg
+
+  (** val succ_double_mask : mask -> mask **)
+
+  let succ_double_mask = function
+  | IsNul -> IsPos XH
+  | IsPos p -> IsPos (XI p)
+  | IsNeg -> IsNeg
+
+  (** val double_mask : mask -> mask **)
+
+  let double_mask = function
+  | IsPos p -> IsPos (XO p)
+  | x0 -> x0
+
+  (** val double_pred_mask : positive -> mask **)
+
+  let double_pred_mask = function
+  | XI p -> IsPos (XO (XO p))
+  | XO p -> IsPos (XO (pred_double p))
+  | XH -> IsNul
+
+  (** val sub_mask : positive -> positive -> mask **)
+
+  let rec sub_mask x y =
+    match x with
+    | XI p ->
+      (match y with
+       | XI q -> double_mask (sub_mask p q)
+       | XO q -> succ_double_mask (sub_mask p q)
+       | XH -> IsPos (XO p))
+    | XO p ->
+      (match y with
+       | XI q -> succ_double_mask (sub_mask_carry p q)
+       | XO q -> double_mask (sub_mask p q)
+       | XH -> IsPos (pred_double p))
+    | XH -> (match y with
+             | XH -> IsNul
+             | _ -> IsNeg)
+
+  (** val sub_mask_carry : positive -> positive -> mask **)
+
+  and sub_mask_carry x y =
+    match x with
+    | XI p ->
+      (match y with
+       | XI q -> succ_double_mask (sub_mask_carry p q)
+       | XO q -> double_mask (sub_mask p q)
+       | XH -> IsPos (pred_double p))
+    | XO p ->
+      (match y with
+       | XI q -> double_mask (sub_mask_carry p q)
+       | XO q -> succ_double_mask (sub_mask_carry p q)
+       | XH -> double_pred_mask p)
+    | XH -> IsNeg
+
+  (** val size : positive -> positive **)
+
+  let rec size = function
+  | XI p0 -> succ (size p0)
+  | XO p0 -> succ (size p0)
+  | XH -> XH
+
+  (** val compare_cont : comparison -> positive -> positive -> comparison **)
+
+  let rec compare_cont r x y =
+    match x with
+    | XI p ->
+      (match y with
+       | XI q -> compare_cont r p q
+       | XO q -> compare_cont Gt p q
+       | XH -> Gt)
+    | XO p ->
+      (match y with
+       | XI q -> compare_cont Lt p q
+       | XO q -> compare_cont r p q
+       | XH -> Gt)
+    | XH -> (match y with
+             | XH -> r
+             | _ -> Lt)
+
+  (** val compare : positive -> positive -> comparison **)
+
+  let compare =
+    compare_cont Eq
+
+  (** val eqb : positive -> positive -> bool **)
+
+  let rec eqb p q =
+    match p with
+    | XI p0 -> (match q with
+                | XI q0 -> eqb p0 q0
+                | _ -> false)
+    | XO p0 -> (match q with
+                | XO q0 -> eqb p0 q0
+                | _ -> false)
+    | XH -> (match q with
+             | XH -> true
+             | _ -> false)
+
+  (** val iter_op : ('a1 -> 'a1 -> 'a1) -> positive -> 'a1 -> 'a1 **)
+
+  let rec iter_op op p a =
+    match p with
+    | XI p0 -> op a (iter_op op p0 (op a a))
+    | XO p0 -> iter_op op p0 (op a a)
+    | XH -> a
+
+  (** val to_nat : positive -> nat **)
+
+  let to_nat x =
+    iter_op add x (S O)
+
+  (** val of_succ_nat : nat -> positive **)
+
+  let rec of_succ_nat = function
+  | O -> XH
+  | S x -> succ (of_succ_nat x)
+ end
+
+module N =
+ struct
+  (** val succ_double : n -> n **)
+
+  let succ_double = function
+  | N0 -> Npos XH
+  | Npos p -> Npos (XI p)
+
+  (** val double : n -> n **)
+
+  let double = function
+  | N0 -> N0
+  | Npos p -> Npos (XO p)
+
+  (** val sub : n -> n -> n **)
+
+  let sub n0 m =
+    match n0 with
+    | N0 -> N0
+    | Npos n' ->
+      (match m with
+       | N0 -> n0
+       | Npos m' ->
+         (match Coq_Pos.sub_mask n' m' with
+          | Coq_Pos.IsPos p -> Npos p
+          | _ -> N0))
+
+  (** val compare : n -> n -> comparison **)
+
+  let compare n0 m =
+    match n0 with
+    | N0 -> (match m with
+             | N0 -> Eq
+             | Npos _ -> Lt)
+    | Npos n' -> (match m with
+                  | N0 -> Gt
+                  | Npos m' -> Coq_Pos.compare n' m')
+
+  (** val eqb : n -> n -> bool **)
+
+  let eqb n0 m =
+    match n0 with
+    | N0 -> (match m with
+             | N0 -> true
+             | Npos _ -> false)
+    | Npos p -> (match m with
+                 | N0 -> false
+                 | Npos q -> Coq_Pos.eqb p q)
+
+  (** val leb : n -> n -> bool **)
+
+  let leb x y =
+    match compare x y with
+    | Gt -> false
+    | _ -> true
+
+  (** val size : n -> n **)
+
+  let size = function
+  | N0 -> N0
+  | Npos p -> Npos (Coq_Pos.size p)
+
+  (** val pos_div_eucl : positive -> n -> n * n **)
+
+  let rec pos_div_eucl a b =
+    match a with
+    | XI a' ->
+      let (q, r) = pos_div_eucl a' b in
+      let r' = succ_double r in
+      if leb b r' then ((succ_double q), (sub r' b)) else ((double q), r')
+    | XO a' ->
+      let (q, r) = pos_div_eucl a' b in
+      let r' = double r in
+      if leb b r' then ((succ_double q), (sub r' b)) else ((double q), r')
+    | XH ->
+      (match b with
+       | N0 -> (N0, (Npos XH))
+       | Npos p -> (match p with
+                    | XH -> ((Npos XH), N0)
+                    | _ -> (N0, (Npos XH))))
+
+  (** val div_eucl : n -> n -> n * n **)
+
+  let div_eucl a b =
+    match a with
+    | N0 -> (N0, N0)
+    | Npos na -> (match b with
+                  | N0 -> (N0, a)
+                  | Npos _ -> pos_div_eucl na b)
+
+  (** val div : n -> n -> n **)
+
+  let div a b =
+    fst (div_eucl a b)
+
+  (** val modulo : n -> n -> n **)
+
+  let modulo a b =
+    snd (div_eucl a b)
+
+  (** val to_nat : n -> nat **)
+
+  let to_nat = function
+  | N0 -> O
+  | Npos p -> Coq_Pos.to_nat p
+
+  (** val of_nat : nat -> n **)
+
+  let of_nat = function
+  | O -> N0
+  | S n' -> Npos (Coq_Pos.of_succ_nat n')
+ end
+
+(** val zero : char **)
+
+let zero = '\000'
+
+(** val one : char **)
+
+let one = '\001'
+
+(** val shift : bool -> char -> char **)
+
+let shift = fun b c -> Char.chr (((Char.code c) lsl 1) land 255 + if b then 1 else 0)
+
+(** val ascii_of_pos : positive -> char **)
+
+let ascii_of_pos =
+  let rec loop n0 p =
+    match n0 with
+    | O -> zero
+    | S n' ->
+      (match p with
+       | XI p' -> shift true (loop n' p')
+       | XO p' -> shift false (loop n' p')
+       | XH -> one)
+  in loop (S (S (S (S (S (S (S (S O))))))))
+
+(** val ascii_of_N : n -> char **)
+
+let ascii_of_N = function
+| N0 -> zero
+| Npos p -> ascii_of_pos p
+
+(** val ascii_of_nat : nat -> char **)
+
+let ascii_of_nat a =
+  ascii_of_N (N.of_nat a)
 
 (** val map : ('a1 -> 'a2) -> 'a1 list -> 'a2 list **)
 
@@ -56,9 +378,9 @@ let rec forallb f = function
 | [] -> true
 | a :: l0 -> (&&) (f a) (forallb f l0)
 
-(** val eqb : char list -> char list -> bool **)
+(** val eqb0 : char list -> char list -> bool **)
 
-let rec eqb s1 s2 =
+let rec eqb0 s1 s2 =
   match s1 with
   | [] -> (match s2 with
            | [] -> true
@@ -66,7 +388,14 @@ let rec eqb s1 s2 =
   | c1::s1' ->
     (match s2 with
      | [] -> false
-     | c2::s2' -> if (=) c1 c2 then eqb s1' s2' else false)
+     | c2::s2' -> if (=) c1 c2 then eqb0 s1' s2' else false)
+
+(** val append : char list -> char list -> char list **)
+
+let rec append s1 s2 =
+  match s1 with
+  | [] -> s2
+  | c::s1' -> c::(append s1' s2)
 
 type err =
 | ErrValue
@@ -112,7 +441,7 @@ let err_name = function
 
 let rec mem_str x = function
 | [] -> false
-| y :: r -> if eqb x y then true else mem_str x r
+| y :: r -> if eqb0 x y then true else mem_str x r
 
 (** val list_str_eqb : char list list -> char list list -> bool **)
 
@@ -124,7 +453,37 @@ let rec list_str_eqb a b =
   | x :: a' ->
     (match b with
      | [] -> false
-     | y :: b' -> (&&) (eqb x y) (list_str_eqb a' b'))
+     | y :: b' -> (&&) (eqb0 x y) (list_str_eqb a' b'))
+
+(** val digit_char : nat -> char **)
+
+let digit_char n0 =
+  ascii_of_nat
+    (add (S (S (S (S (S (S (S (S (S (S (S (S (S (S (S (S (S (S (S (S (S (S (S
+      (S (S (S (S (S (S (S (S (S (S (S (S (S (S (S (S (S (S (S (S (S (S (S (S
+      (S O)))))))))))))))))))))))))))))))))))))))))))))))) n0)
+
+(** val dec_N_fuel : nat -> n -> char list -> char list **)
+
+let rec dec_N_fuel fuel n0 acc =
+  match fuel with
+  | O -> acc
+  | S f ->
+    let d = N.to_nat (N.modulo n0 (Npos (XO (XI (XO XH))))) in
+    let acc' = (digit_char d)::acc in
+    if N.eqb (N.div n0 (Npos (XO (XI (XO XH))))) N0
+    then acc'
+    else dec_N_fuel f (N.div n0 (Npos (XO (XI (XO XH))))) acc'
+
+(** val dec_N : n -> char list **)
+
+let dec_N n0 =
+  dec_N_fuel (S (N.to_nat (N.size n0))) n0 []
+
+(** val dec_nat : nat -> char list **)
+
+let dec_nat n0 =
+  dec_N (N.of_nat n0)
 
 type sexp =
 | SAtom of char list
@@ -134,6 +493,19 @@ type sexp =
 
 let s_strs l =
   SList (map (fun x -> SAtom x) l)
+
+(** val s_nat : nat -> sexp **)
+
+let s_nat n0 =
+  SAtom (dec_nat n0)
+
+(** val s_bool : bool -> sexp **)
+
+let s_bool b =
+  SAtom
+    (if b
+     then 't'::('r'::('u'::('e'::[])))
+     else 'f'::('a'::('l'::('s'::('e'::[])))))
 
 (** val s_tag : char list -> sexp list -> sexp **)
 
@@ -190,20 +562,20 @@ type table = entry list
 (** val tget :
     char list -> table -> (char list list * char list list) option **)
 
-let rec tget n = function
+let rec tget n0 = function
 | [] -> None
-| e :: r -> let (k, v) = e in if eqb n k then Some v else tget n r
+| e :: r -> let (k, v) = e in if eqb0 n0 k then Some v else tget n0 r
 
 (** val textend : char list -> char list list -> table -> table **)
 
-let rec textend n ds = function
+let rec textend n0 ds = function
 | [] -> []
 | e :: r ->
   let (k, p) = e in
   let (s, d) = p in
-  if eqb n k
+  if eqb0 n0 k
   then (k, (s, (app d ds))) :: r
-  else (k, (s, d)) :: (textend n ds r)
+  else (k, (s, d)) :: (textend n0 ds r)
 
 (** val step1 : table -> jblock -> table result **)
 
@@ -227,8 +599,8 @@ let rec phase1 bs t =
 
 (** val has_key : char list -> table -> bool **)
 
-let has_key n t =
-  match tget n t with
+let has_key n0 t =
+  match tget n0 t with
   | Some _ -> true
   | None -> false
 
@@ -245,10 +617,10 @@ let rec one_pass rest seen out emitted =
   match rest with
   | [] -> ((seen, out), emitted)
   | e :: r ->
-    let (n, p) = e in
+    let (n0, p) = e in
     let (scr, ds) = p in
-    if (&&) (negb (mem_str n seen)) (forallb (fun d -> mem_str d seen) ds)
-    then one_pass r (app seen (n :: [])) (app out scr) true
+    if (&&) (negb (mem_str n0 seen)) (forallb (fun d -> mem_str d seen) ds)
+    then one_pass r (app seen (n0 :: [])) (app out scr) true
     else one_pass r seen out emitted
 
 (** val emit_loop :
@@ -283,7 +655,7 @@ let d_jblock = function
    | [] -> None
    | s0 :: l0 ->
      (match s0 with
-      | SAtom n ->
+      | SAtom n0 ->
         (match l0 with
          | [] -> None
          | sc :: l1 ->
@@ -296,7 +668,7 @@ let d_jblock = function
                   | Some sc' ->
                     (match d_strs dp with
                      | Some dp' ->
-                       Some { jb_name = n; jb_script = sc'; jb_deps = dp' }
+                       Some { jb_name = n0; jb_script = sc'; jb_deps = dp' }
                      | None -> None)
                   | None -> None)
                | _ :: _ -> None)))
@@ -311,11 +683,247 @@ let run_gen = function
    | Some bs -> s_result s_strs (gen bs)
    | None -> bad_input)
 
+type mrow = { m_py : char list; m_cpp : char list; m_inc : char list list;
+              m_ret : char list }
+
+type menv = { e_rows : mrow list; e_module : char list list;
+              e_builtins : (char list * char list) list }
+
+(** val lookup_row : char list -> mrow list -> mrow option **)
+
+let rec lookup_row k = function
+| [] -> None
+| r :: rest ->
+  (match lookup_row k rest with
+   | Some r' -> Some r'
+   | None -> if eqb0 k r.m_py then Some r else None)
+
+(** val assoc :
+    char list -> (char list * char list) list -> char list option **)
+
+let rec assoc k = function
+| [] -> None
+| p :: r -> let (a, b) = p in if eqb0 k a then Some b else assoc k r
+
+type resolution =
+| RName of char list
+| RCrash
+
+(** val resolve : menv -> char list -> resolution **)
+
+let resolve e n0 =
+  if mem_str n0 e.e_module
+  then RCrash
+  else (match assoc n0 e.e_builtins with
+        | Some m ->
+          (match m with
+           | [] -> RName (append m (append ('.'::[]) n0))
+           | a::s ->
+             (* If this appears, you're using Ascii internals. Please don't *)
+ (fun f c ->
+  let n = Char.code c in
+  let h i = (n land (1 lsl i)) <> 0 in
+  f (h 0) (h 1) (h 2) (h 3) (h 4) (h 5) (h 6) (h 7))
+               (fun b b0 b1 b2 b3 b4 b5 b6 ->
+               if b
+               then if b0
+                    then RName (append m (append ('.'::[]) n0))
+                    else if b1
+                         then if b2
+                              then if b3
+                                   then RName (append m (append ('.'::[]) n0))
+                                   else if b4
+                                        then if b5
+                                             then RName
+                                                    (append m
+                                                      (append ('.'::[]) n0))
+                                             else if b6
+                                                  then RName
+                                                         (append m
+                                                           (append ('.'::[])
+                                                             n0))
+                                                  else (match s with
+                                                        | [] -> RCrash
+                                                        | _::_ ->
+                                                          RName
+                                                            (append m
+                                                              (append
+                                                                ('.'::[]) n0)))
+                                        else RName
+                                               (append m
+                                                 (append ('.'::[]) n0))
+                              else RName (append m (append ('.'::[]) n0))
+                         else RName (append m (append ('.'::[]) n0))
+               else RName (append m (append ('.'::[]) n0)))
+               a)
+        | None -> RName n0)
+
+(** val find_row : menv -> char list -> mrow option **)
+
+let find_row e n0 =
+  match resolve e n0 with
+  | RName q -> lookup_row q e.e_rows
+  | RCrash -> None
+
+(** val acceptable : char list -> char list -> bool **)
+
+let acceptable n0 cpp =
+  (||)
+    ((||) (eqb0 cpp (append ('s'::('t'::('d'::(':'::(':'::[]))))) n0))
+      ((&&) (eqb0 n0 ('l'::('n'::[])))
+        (eqb0 cpp ('s'::('t'::('d'::(':'::(':'::('l'::('o'::('g'::[])))))))))))
+    ((&&) (eqb0 n0 ('a'::('b'::('s'::[]))))
+      ((||)
+        (eqb0 cpp
+          ('s'::('t'::('d'::(':'::(':'::('f'::('a'::('b'::('s'::[]))))))))))
+        (eqb0 cpp ('s'::('t'::('d'::(':'::(':'::('a'::('b'::('s'::[])))))))))))
+
+(** val cmath_sig : (char list * (nat * bool)) list **)
+
+let cmath_sig =
+  (('s'::('i'::('n'::[]))), ((S O), false)) :: ((('c'::('o'::('s'::[]))), ((S
+    O), false)) :: ((('t'::('a'::('n'::[]))), ((S O),
+    false)) :: ((('a'::('c'::('o'::('s'::[])))), ((S O),
+    false)) :: ((('a'::('s'::('i'::('n'::[])))), ((S O),
+    false)) :: ((('a'::('t'::('a'::('n'::[])))), ((S O),
+    false)) :: ((('a'::('t'::('a'::('n'::('2'::[]))))), ((S (S O)),
+    false)) :: ((('s'::('i'::('n'::('h'::[])))), ((S O),
+    false)) :: ((('c'::('o'::('s'::('h'::[])))), ((S O),
+    false)) :: ((('t'::('a'::('n'::('h'::[])))), ((S O),
+    false)) :: ((('a'::('s'::('i'::('n'::('h'::[]))))), ((S O),
+    false)) :: ((('a'::('c'::('o'::('s'::('h'::[]))))), ((S O),
+    false)) :: ((('a'::('t'::('a'::('n'::('h'::[]))))), ((S O),
+    false)) :: ((('e'::('x'::('p'::[]))), ((S O),
+    false)) :: ((('l'::('d'::('e'::('x'::('p'::[]))))), ((S (S O)),
+    false)) :: ((('l'::('o'::('g'::[]))), ((S O),
+    false)) :: ((('l'::('n'::[])), ((S O),
+    false)) :: ((('l'::('o'::('g'::('1'::('0'::[]))))), ((S O),
+    false)) :: ((('e'::('x'::('p'::('2'::[])))), ((S O),
+    false)) :: ((('e'::('x'::('p'::('m'::('1'::[]))))), ((S O),
+    false)) :: ((('i'::('l'::('o'::('g'::('b'::[]))))), ((S O),
+    false)) :: ((('l'::('o'::('g'::('1'::('p'::[]))))), ((S O),
+    false)) :: ((('l'::('o'::('g'::('2'::[])))), ((S O),
+    false)) :: ((('s'::('c'::('a'::('l'::('b'::('n'::[])))))), ((S (S O)),
+    false)) :: ((('s'::('c'::('a'::('l'::('b'::('l'::('n'::[]))))))), ((S (S
+    O)), false)) :: ((('p'::('o'::('w'::[]))), ((S (S O)),
+    false)) :: ((('s'::('q'::('r'::('t'::[])))), ((S O),
+    false)) :: ((('c'::('b'::('r'::('t'::[])))), ((S O),
+    false)) :: ((('h'::('y'::('p'::('o'::('t'::[]))))), ((S (S O)),
+    false)) :: ((('e'::('r'::('f'::[]))), ((S O),
+    false)) :: ((('e'::('r'::('f'::('c'::[])))), ((S O),
+    false)) :: ((('t'::('g'::('a'::('m'::('m'::('a'::[])))))), ((S O),
+    false)) :: ((('l'::('g'::('a'::('m'::('m'::('a'::[])))))), ((S O),
+    false)) :: ((('c'::('e'::('i'::('l'::[])))), ((S O),
+    false)) :: ((('f'::('l'::('o'::('o'::('r'::[]))))), ((S O),
+    false)) :: ((('f'::('m'::('o'::('d'::[])))), ((S (S O)),
+    false)) :: ((('t'::('r'::('u'::('n'::('c'::[]))))), ((S O),
+    false)) :: ((('r'::('o'::('u'::('n'::('d'::[]))))), ((S O),
+    false)) :: ((('r'::('i'::('n'::('t'::[])))), ((S O),
+    false)) :: ((('n'::('e'::('a'::('r'::('b'::('y'::('i'::('n'::('t'::[]))))))))),
+    ((S O),
+    false)) :: ((('r'::('e'::('m'::('a'::('i'::('n'::('d'::('e'::('r'::[]))))))))),
+    ((S (S O)), false)) :: ((('r'::('e'::('m'::('q'::('u'::('o'::[])))))),
+    ((S (S (S O))),
+    true)) :: ((('c'::('o'::('p'::('y'::('s'::('i'::('g'::('n'::[])))))))),
+    ((S (S O)), false)) :: ((('n'::('a'::('n'::[]))), ((S O),
+    false)) :: ((('n'::('e'::('x'::('t'::('a'::('f'::('t'::('e'::('r'::[]))))))))),
+    ((S (S O)),
+    false)) :: ((('n'::('e'::('x'::('t'::('t'::('o'::('w'::('a'::('r'::('d'::[])))))))))),
+    ((S (S O)), false)) :: ((('f'::('d'::('i'::('m'::[])))), ((S (S O)),
+    false)) :: ((('f'::('m'::('a'::('x'::[])))), ((S (S O)),
+    false)) :: ((('f'::('m'::('i'::('n'::[])))), ((S (S O)),
+    false)) :: ((('f'::('a'::('b'::('s'::[])))), ((S O),
+    false)) :: ((('a'::('b'::('s'::[]))), ((S O),
+    false)) :: ((('f'::('m'::('a'::[]))), ((S (S (S O))),
+    false)) :: [])))))))))))))))))))))))))))))))))))))))))))))))))))
+
+(** val sig_of :
+    char list -> (char list * (nat * bool)) list -> (nat * bool) option **)
+
+let rec sig_of n0 = function
+| [] -> None
+| p :: r -> let (a, b) = p in if eqb0 n0 a then Some b else sig_of n0 r
+
+(** val callable_from_query : char list -> bool **)
+
+let callable_from_query n0 =
+  match sig_of n0 cmath_sig with
+  | Some p -> let (_, b) = p in if b then false else true
+  | None -> false
+
+(** val doc_ok : menv -> char list -> bool **)
+
+let doc_ok e n0 =
+  match find_row e n0 with
+  | Some r ->
+    (&&)
+      ((&&)
+        ((&&) (acceptable n0 r.m_cpp)
+          (mem_str ('c'::('m'::('a'::('t'::('h'::[]))))) r.m_inc))
+        (eqb0 r.m_ret ('d'::('o'::('u'::('b'::('l'::('e'::[]))))))))
+      (callable_from_query n0)
+  | None -> false
+
+(** val s_row : mrow -> sexp **)
+
+let s_row r =
+  SList ((SAtom r.m_py) :: ((SAtom r.m_cpp) :: ((s_strs r.m_inc) :: ((SAtom
+    r.m_ret) :: []))))
+
+(** val audit : menv -> char list list -> sexp **)
+
+let audit e doc =
+  SList
+    (map (fun n0 -> SList ((SAtom
+      n0) :: ((match resolve e n0 with
+               | RName q -> SAtom q
+               | RCrash ->
+                 SAtom ('<'::('c'::('r'::('a'::('s'::('h'::('>'::[])))))))) :: ((
+      match find_row e n0 with
+      | Some r -> s_row r
+      | None -> SList []) :: ((s_bool (doc_ok e n0)) :: ((match sig_of n0
+                                                                  cmath_sig with
+                                                          | Some p0 ->
+                                                            let (k, p) = p0 in
+                                                            SList
+                                                            ((s_nat k) :: (
+                                                            (s_bool p) :: []))
+                                                          | None -> SList []) :: []))))))
+      doc)
+
+(** val math_rows : mrow list **)
+
+let math_rows =
+  []
+
+(** val module_names : char list list **)
+
+let module_names =
+  []
+
+(** val builtin_names : (char list * char list) list **)
+
+let builtin_names =
+  []
+
+(** val documented : char list list **)
+
+let documented =
+  []
+
+(** val math_env : menv **)
+
+let math_env =
+  { e_rows = math_rows; e_module = module_names; e_builtins = builtin_names }
+
 (** val dispatch : char list -> sexp -> sexp **)
 
 let dispatch cmd arg =
-  if eqb cmd ('c'::('1'::('5'::('.'::('g'::('e'::('n'::[])))))))
+  if eqb0 cmd ('c'::('1'::('5'::('.'::('g'::('e'::('n'::[])))))))
   then run_gen arg
-  else s_tag
-         ('u'::('n'::('k'::('n'::('o'::('w'::('n'::('-'::('c'::('o'::('m'::('m'::('a'::('n'::('d'::[])))))))))))))))
-         ((SAtom cmd) :: [])
+  else if eqb0 cmd
+            ('c'::('1'::('2'::('.'::('a'::('u'::('d'::('i'::('t'::[])))))))))
+       then audit math_env documented
+       else s_tag
+              ('u'::('n'::('k'::('n'::('o'::('w'::('n'::('-'::('c'::('o'::('m'::('m'::('a'::('n'::('d'::[])))))))))))))))
+              ((SAtom cmd) :: [])
